@@ -89,9 +89,6 @@ Proof.
   destruct (Nat.ltb_spec n (length fr)) as [_|]; [reflexivity|lia].
 Qed.
 
-Lemma gp_bad : length gp = 32%nat /\ c_verdict gp = None /\ c_verdict [] = Some None.
-Proof. vm_compute. repeat split. Qed.
-
 (* ---- the authentication request of a configured user is valid and can be encoded ---- *)
 Section Auth.
   Variables user pass : list N.
@@ -125,6 +122,38 @@ Section Auth.
 End Auth.
 
 (* ---- C08 for the concrete instance ---- *)
+Definition maxlen : nat := N.to_nat 65600.
+
+(* rejected plaintexts (PeerU.badg): a garbled header block, a frame with a wrong checksum, a frame with a malformed payload *)
+Notation cbadg := (PeerU.badg message c_verdict maxlen).
+Lemma badg_small g : length g = 32%nat \/ length g = 64%nat -> c_verdict [] = Some None ->
+  (length g = 64%nat -> c_verdict (firstn 32 g) = Some None) -> c_verdict g = None -> cbadg g.
+Proof.
+  intros Hl H0 H32 Hv. unfold PeerU.badg, ClientReasm.al. split; [destruct Hl as [-> | ->]; reflexivity|].
+  split; [intros ->; cbn in Hl; destruct Hl; discriminate|]. split; [unfold maxlen; lia|]. split; [|exact Hv].
+  intros n Hn Hm. pose proof (Nat.div_mod n 32 ltac:(discriminate)) as D. rewrite Hm in D.
+  assert (Hc : n = 0%nat \/ (n = 32%nat /\ length g = 64%nat)) by lia.
+  destruct Hc as [-> | [-> Hl64]]; [exact H0|apply H32; exact Hl64].
+Qed.
+
+(* 32 zero bytes: no RSCP magic *)
+Lemma badg_gp : cbadg gp.
+Proof. apply badg_small; [left; reflexivity|reflexivity|intro H; discriminate H|vm_compute; reflexivity]. Qed.
+
+(* a checksummed reply frame (one UChar8 message, 64 bytes) with one bit of its checksum flipped *)
+Definition bad_crc_frame : list N :=
+  let f := c_encode true (1700000000%Z, 5%Z) [Msg 8388609 3 (GU8 10)] in
+  firstn 25 f ++ [N.lxor (nth 25 f 0) 1] ++ skipn 26 f.
+Lemma badg_bad_crc : cbadg bad_crc_frame.
+Proof. apply badg_small; [left; vm_compute; reflexivity|reflexivity|intro H; vm_compute in H; discriminate H|vm_compute; reflexivity]. Qed.
+
+(* a frame whose header is fine but whose payload is not a sequence of items: the item claims 200 bytes of data, the frame holds 9 *)
+Definition bad_payload_frame : list N :=
+  pad32 (le 2 magic ++ le 2 (ctrl_word false) ++ le 8 (twos 64 1700000000) ++ le 4 (twos 32 5) ++ le 2 16 ++
+         (le 4 8388609 ++ [3] ++ le 2 200 ++ [1;2;3;4;5;6;7;8;9])).
+Lemma badg_bad_payload : cbadg bad_payload_frame.
+Proof. apply badg_small; [right; vm_compute; reflexivity|reflexivity|intros _; vm_compute; reflexivity|vm_compute; reflexivity]. Qed.
+
 Section Concrete.
   Variable key : list N.
   Hypothesis Bk : RijP1.bytes_ok key.
@@ -137,11 +166,15 @@ Section Concrete.
   Hypothesis to_pos : (0 < conn_to /\ 0 < send_to /\ 0 < recv_to)%Z.
   Variable rbuf : nat.
   Hypothesis rbuf_pos : (0 < rbuf)%nat.
-  (* the peer: ANY function from requests to replies that can be encoded, is never empty and grants the authentication *)
-  Variable reply_of : list message -> list message.
+  (* the peer: ANY two functions from requests to replies that can be encoded and are never empty; reply_of grants the
+     authentication, deny_of (used when the script says Refuse) does not *)
+  Variables reply_of deny_of : list message -> list message.
   Hypothesis reply_okm : forall ms, okm (reply_of ms).
+  Hypothesis deny_okm : forall ms, okm (deny_of ms).
   Hypothesis reply_nonempty : forall ms, reply_of ms <> [].
+  Hypothesis deny_nonempty : forall ms, deny_of ms <> [].
   Hypothesis auth_grants : c_auth_ok (reply_of (c_auth_req user pass)) = true.
+  Hypothesis auth_denies : c_auth_ok (deny_of (c_auth_req user pass)) = false.
 
   Let ks := key_schedule (key_pad key).
   Let kl := key_pad_len key.
@@ -150,7 +183,6 @@ Section Concrete.
   Lemma enc_al ts ms : ClientReasm.al (c_encode crc ts ms) /\ (32 <= length (c_encode crc ts ms))%nat.
   Proof. destruct (plain_aligned crc (fst ts) (snd ts) ms) as [A B]. split; assumption. Qed.
 
-  Definition maxlen : nat := N.to_nat 65600.
   Lemma enc_bound ts ms : okm ms -> (length (c_encode crc ts ms) <= maxlen)%nat.
   Proof.
     intros [_ F]. unfold c_encode. set (fr := frame (fst ts) (snd ts) crc ms).
@@ -163,49 +195,72 @@ Section Concrete.
     { unfold fr, frame. destruct crc; rewrite !app_length, !le_length; lia. }
     unfold fits in F. rewrite app_length. unfold maxlen. lia.
   Qed.
-  Lemma gp_bound : (32 <= maxlen)%nat. Proof. unfold maxlen. lia. Qed.
 
-  Notation cpeer := (peer message (c_encode crc) (s_enc ks) (s_decP ks) (s_decI ks) iv0 decodeP reply_of gp).
-  Notation csend_multiple := (send_multiple message (c_encode crc) c_decode_step (s_enc ks) (s_dec ks) iv0 c_valid
-                                (c_auth_req user pass) c_auth_ok conn_to send_to recv_to rbuf (pstate message) cpeer).
+  Definition cpeer := peer message (c_encode crc) (s_enc ks) (s_decP ks) (s_decI ks) iv0 decodeP reply_of deny_of.
+  Definition csend_multiple := send_multiple message (c_encode crc) c_decode_step (s_enc ks) (s_dec ks) iv0 c_valid
+                                (c_auth_req user pass) c_auth_ok conn_to send_to recv_to rbuf (pstate message) cpeer.
+  Definition cdisconnect := disconnect message (pstate message) cpeer.
+  Definition crun_res := run_res message (c_encode crc) (s_enc ks) (s_decP ks) (s_decI ks) c_verdict iv0 c_valid (c_auth_req user pass) c_auth_ok
+                                conn_to send_to recv_to rbuf decodeP reply_of deny_of.
+  Definition cSync := Sync message c_verdict maxlen.
+  Definition cpaired := paired message (c_auth_req user pass) reply_of deny_of.
+  Definition cokc := okc message c_valid okm maxlen.
+
+  (* the interface of PeerU.v, discharged *)
+  Ltac inst T :=
+    apply (T message (c_encode crc) (s_enc ks) (s_decP ks) (s_decI ks) c_verdict iv0 c_valid (c_auth_req user pass) c_auth_ok
+             conn_to send_to recv_to rbuf rbuf_pos to_pos decodeP reply_of deny_of
+             (fun iv a b H => s_decP_app (key_pad key) iv a b H) (fun iv a b H => s_decI_app (key_pad key) iv a b H)
+             (s_decP_nil (key_pad key)) (s_decI_nil (key_pad key))
+             (fun iv c H => s_decP_len (key_pad key) kl kb iv c H) (fun iv p H => s_dec_enc (key_pad key) kl kb iv p H)
+             (fun iv p H => s_enc_len (key_pad key) kl kb iv p H) enc_al
+             okm (decodeP_enc crc) (V_whole crc) (V_prefix crc) reply_okm deny_okm (auth_okm user pass Bu Bp Hlen) reply_nonempty deny_nonempty
+             auth_grants auth_denies (auth_valid user pass Bu Bp Hlen) maxlen enc_bound).
 
   (* pairing, at most once, in order - for one call of the executable client model against the honest peer *)
   Theorem C08_call_spec fuel s w ms s' w' r :
-    Sync message s w -> (maxlen < fuel)%nat -> (c_valid ms = true -> okm ms) ->
+    cSync s w -> (maxlen < fuel)%nat -> (c_valid ms = true -> okm ms) ->
     csend_multiple fuel s w ms = (s', w', r) ->
-    Sync message s' w' /\
+    cSync s' w' /\
     (exists l, plog message (est message (pstate message) w') = plog message (est message (pstate message) w) ++ l /\
                one_of message (c_auth_req user pass) l ms) /\
-    (forall x, r = Ok (list message) x -> x = reply_of ms /\
-       exists l, plog message (est message (pstate message) w') = plog message (est message (pstate message) w) ++ l ++ [ms]).
-  Proof.
-    exact (PeerU.call_spec message (c_encode crc) (s_enc ks) (s_decP ks) (s_decI ks) c_verdict iv0 c_valid (c_auth_req user pass) c_auth_ok
-             conn_to send_to recv_to rbuf rbuf_pos to_pos decodeP reply_of gp
-             (fun iv a b H => s_decP_app (key_pad key) iv a b H) (fun iv a b H => s_decI_app (key_pad key) iv a b H)
-             (s_decP_nil (key_pad key)) (s_decI_nil (key_pad key))
-             (fun iv c H => s_decP_len (key_pad key) kl kb iv c H) (fun iv p H => s_dec_enc (key_pad key) kl kb iv p H)
-             (fun iv p H => s_enc_len (key_pad key) kl kb iv p H) enc_al
-             okm (decodeP_enc crc) (V_whole crc) (V_prefix crc) reply_okm (auth_okm user pass Bu Bp Hlen) gp_bad reply_nonempty auth_grants
-             (auth_valid user pass Bu Bp Hlen) maxlen enc_bound gp_bound fuel s w ms s' w' r).
-  Qed.
+    (forall x, r = Ok (list message) x -> (x = reply_of ms \/ x = deny_of ms) /\
+       exists l, plog message (est message (pstate message) w') = plog message (est message (pstate message) w) ++ l ++ [ms]) /\
+    (forall x, r = Err (list message) x ->
+       (cur message (pstate message) w' = None /\ (x = EIO \/ x = EProto)) \/ x = EValidate \/ (x = EAuth /\ authed s' = false)).
+  Proof. inst PeerU.call_spec. Qed.
 
-  (* recovery: from a closed state the next call reconnects, authenticates again and returns the reply to this very request *)
+  (* recovery: an unauthenticated client (closed after a timeout, a broken connection, a protocol error or Disconnect; or
+     refused) whose peer answers the next two requests reconnects where necessary, authenticates and gets its reply *)
   Theorem C08_recovery fuel s w ms s' w' r :
-    Sync message s w -> cur message (pstate message) w = None -> (maxlen < fuel)%nat -> c_valid ms = true -> okm ms ->
-    (match script message (est message (pstate message) w) with [] => True | [Answer] => True | Answer :: Answer :: _ => True | _ => False end) ->
+    cSync s w -> authed s = false -> (maxlen < fuel)%nat -> c_valid ms = true -> okm ms ->
+    healthy message 2 (est message (pstate message) w) ->
     csend_multiple fuel s w ms = (s', w', r) ->
     r = Ok (list message) (reply_of ms) /\
     plog message (est message (pstate message) w') = plog message (est message (pstate message) w) ++ [c_auth_req user pass; ms] /\
-    Sync message s' w'.
-  Proof.
-    exact (PeerU.recovery message (c_encode crc) (s_enc ks) (s_decP ks) (s_decI ks) c_verdict iv0 c_valid (c_auth_req user pass) c_auth_ok
-             conn_to send_to recv_to rbuf rbuf_pos to_pos decodeP reply_of gp
-             (fun iv a b H => s_decP_app (key_pad key) iv a b H) (fun iv a b H => s_decI_app (key_pad key) iv a b H)
-             (s_decP_nil (key_pad key)) (s_decI_nil (key_pad key))
-             (fun iv c H => s_decP_len (key_pad key) kl kb iv c H) (fun iv p H => s_dec_enc (key_pad key) kl kb iv p H)
-             (fun iv p H => s_enc_len (key_pad key) kl kb iv p H) enc_al
-             okm (decodeP_enc crc) (V_whole crc) (V_prefix crc) reply_okm (auth_okm user pass Bu Bp Hlen) gp_bad reply_nonempty auth_grants
-             (auth_valid user pass Bu Bp Hlen) maxlen enc_bound gp_bound fuel s w ms s' w' r).
-  Qed.
+    cSync s' w' /\ authed s' = true.
+  Proof. inst PeerU.recovery. Qed.
+
+  Theorem C08_steady fuel s w ms s' w' r :
+    cSync s w -> authed s = true -> (maxlen < fuel)%nat -> c_valid ms = true -> okm ms ->
+    healthy message 1 (est message (pstate message) w) ->
+    csend_multiple fuel s w ms = (s', w', r) ->
+    r = Ok (list message) (reply_of ms) /\
+    plog message (est message (pstate message) w') = plog message (est message (pstate message) w) ++ [ms] /\
+    cSync s' w' /\ authed s' = true.
+  Proof. inst PeerU.steady. Qed.
+
+  Theorem C08_disconnect s w s' w' : cSync s w -> cdisconnect s w = (s', w') ->
+    cSync s' w' /\ cur message (pstate message) w' = None /\ authed s' = false /\
+    plog message (est message (pstate message) w') = plog message (est message (pstate message) w) /\
+    script message (est message (pstate message) w') = script message (est message (pstate message) w).
+  Proof. inst PeerU.disconnect_sync. Qed.
+
+  (* every history of calls, every fault script *)
+  Theorem C08_history cs s w : cSync s w -> Forall cokc cs ->
+    let '(s', w', rs) := crun_res s w cs in
+    cSync s' w' /\ exists ls, cpaired cs rs ls /\
+      plog message (est message (pstate message) w') = plog message (est message (pstate message) w) ++ concat ls.
+  Proof. inst PeerU.history. Qed.
 End Concrete.
-Print Assumptions C08_call_spec. Print Assumptions C08_recovery.
+Print Assumptions C08_call_spec. Print Assumptions C08_recovery. Print Assumptions C08_steady. Print Assumptions C08_history.
